@@ -36,7 +36,7 @@ namespace BitSerializer
 
 namespace BitSerializer::Convert::Detail
 {
-	constexpr size_t UtcBufSize = 32;
+	constexpr size_t UtcBufSize = 48;		// sign + 19 digits of year + "-MM-DDThh:mm:ss" + ".123456789" + "Z"
 	constexpr int DaysInMonth[12] = { 31, 29, 31, 30, 31, 30, 31, 31, 30, 31, 30, 31 };
 
 	template <class TFractions = std::chrono::nanoseconds,
@@ -385,6 +385,9 @@ namespace BitSerializer::Convert::Detail
 			const size_t outSize = snprintf(pos, endPos - pos, "%04" PRIu64 "-%02d-%02dT%02d:%02d:%02d", absYear, utc.Month, utc.Day, utc.Hour, utc.Min, utc.Sec);
 			if (outSize > 0)
 			{
+				if (outSize >= static_cast<size_t>(endPos - pos)) {
+					throw std::runtime_error("Internal error: insufficient buffer size");		// snprintf() had to truncate
+				}
 				pos += outSize;
 				if (utc.SecFractions) {
 					pos = PrintSecondsFractions(pos, endPos, utc.SecFractions.value());
@@ -445,9 +448,12 @@ namespace BitSerializer::Convert::Detail
 
 		// Based on Howard Hinnant's algorithm
 		static_assert(sizeof(int) >= 4, "This algorithm has not been ported to a 16 bit integers");
-		auto const z = days + 719468ll;
-		auto const era = (z >= 0 ? z : z - 146096) / 146097;
-		auto const doe = static_cast<unsigned>(z - era * 146097);				// [0, 146096]
+		// Shift non-negative day counts down by five eras first: `days + 719468` overflows close to the maximum of 64-bit days
+		constexpr long long eraShift = 5;
+		auto const z = (days >= 0 ? days - eraShift * 146097ll : days) + 719468ll;
+		auto const zEra = (z >= 0 ? z : z - 146096) / 146097;
+		auto const doe = static_cast<unsigned>(z - zEra * 146097);				// [0, 146096]
+		auto const era = days >= 0 ? zEra + eraShift : zEra;
 		auto const yoe = (doe - doe / 1460 + doe / 36524 - doe / 146096) / 365;	// [0, 399]
 		auto const y = yoe + era * 400;
 		auto const doy = doe - (365 * yoe + yoe / 4 - yoe / 100);				// [0, 365]
